@@ -741,18 +741,19 @@ theorem bernHuge_state (env : BernEnv) (s : BernState) (n prec : Nat) (rnd : Opt
     (fault : Option Nat) : (bernHuge env s n prec rnd fault).1 = s := by
   unfold bernHuge; split <;> rfl
 
-theorem bernRunLoop_state (env : BernEnv) (s : BernState) (e : BernEntry) (wp n : Nat)
-    (fault : Option Nat) :
-    (bernRunLoop env s e wp n fault).1 = s.set wp (bernLoop env wp n (n + 1) e fault).1 := by
+theorem bernRunLoop_state (env : BernEnv) (s : BernState) (e : BernEntry) (wp n prec : Nat)
+    (rnd : Option Rnd) (fault : Option Nat) :
+    (bernRunLoop env s e wp n prec rnd fault).1 = s.set wp (bernLoop env wp n (n + 1) e fault).1 := by
   unfold bernRunLoop
   simp only
   split
   · split <;> rfl
   · rfl
 
-theorem bernRunLoop_inv (env : BernEnv) (s : BernState) (e : BernEntry) (wp n : Nat)
-    (fault : Option Nat) (hi : BernInv env s) (k : Nat) (he : bernIter env wp k = some e) :
-    BernInv env (bernRunLoop env s e wp n fault).1 := by
+theorem bernRunLoop_inv (env : BernEnv) (s : BernState) (e : BernEntry) (wp n prec : Nat)
+    (rnd : Option Rnd) (fault : Option Nat) (hi : BernInv env s) (k : Nat)
+    (he : bernIter env wp k = some e) :
+    BernInv env (bernRunLoop env s e wp n prec rnd fault).1 := by
   rw [bernRunLoop_state]
   intro wp' e' h
   by_cases hw : wp' = wp
@@ -774,10 +775,10 @@ theorem bernCached_inv (env : BernEnv) (s : BernState) (n prec : Nat) (rnd : Opt
     · split <;> exact hi
     · split
       · rw [bernHuge_state]; exact hi
-      · exact bernRunLoop_inv env s e _ n fault hi k hk
+      · exact bernRunLoop_inv env s e _ n prec rnd fault hi k hk
   · split
     · rw [bernHuge_state]; exact hi
-    · refine bernRunLoop_inv env _ bernEntryInit _ n fault ?_ 0 rfl
+    · refine bernRunLoop_inv env _ bernEntryInit _ n prec rnd fault ?_ 0 rfl
       intro wp' e' h
       by_cases hw : wp' = bernWp prec
       · subst hw
@@ -812,16 +813,17 @@ theorem bernAfter_inv (env : BernEnv) (s : BernState)
 theorem bernInv_empty (env : BernEnv) : BernInv env FMap.empty := by
   intro wp e h; simp at h
 
-/-- the outcomes allowed by `bernoulli_refines_partial` -/
+/-- the outcomes allowed by `bernoulli_refines`: `mpf_bernoulli_huge`, an exception of the
+recurrence itself, or the history-independent table value `bernVal env wp n` passed through the
+final `bernRound` (`numbers[n]` for `rnd = None`, else `mpf_pos(numbers[n], prec, rnd)`) — on
+whichever path it is served. -/
 def BernOutcome (env : BernEnv) (n prec : Nat) (rnd : Option Rnd) (r : Res (BernPath × Mpf)) : Prop :=
   r = .ok (.huge, env.huge n prec rnd) ∨ r = .raised ∨
-  ∃ v, bernVal env (bernWp prec) n = some v ∧
-    (r = .ok (.computed, v) ∨ (rnd = none ∧ r = .ok (.cachedRaw, v)) ∨
-     ∃ rr, rnd = some rr ∧ r = .ok (.cachedPos, mpf_pos v prec rr))
+  ∃ v path, bernVal env (bernWp prec) n = some v ∧ r = .ok (path, bernRound v prec rnd)
 
 theorem bernRunLoop_outcome (env : BernEnv) (s : BernState) (e : BernEntry) (prec n : Nat)
     (rnd : Option Rnd) (k : Nat) (he : bernIter env (bernWp prec) k = some e) (h2 : n % 2 = 0) (hlo : 2 ≤ n) :
-    BernOutcome env n prec rnd (bernRunLoop env s e (bernWp prec) n none).2 := by
+    BernOutcome env n prec rnd (bernRunLoop env s e (bernWp prec) n prec rnd none).2 := by
   obtain ⟨j, hj⟩ := bernLoop_iter env (bernWp prec) n (n + 1) e none k he
   have hm := bernIter_m env _ k e he
   unfold bernRunLoop
@@ -832,7 +834,7 @@ theorem bernRunLoop_outcome (env : BernEnv) (s : BernState) (e : BernEntry) (pre
     split
     · next v hv =>
       right; right
-      exact ⟨v, bernIter_numbers env _ _ _ hj n (by omega) v hv, Or.inl rfl⟩
+      exact ⟨v, .computed, bernIter_numbers env _ _ _ hj n (by omega) v hv, rfl⟩
     · next hv =>
       have := bernIter_keys env _ _ _ hj n h2 hlo hlt
       rw [hv] at this; simp at this
@@ -850,8 +852,8 @@ theorem bernCached_outcome (env : BernEnv) (s : BernState) (n prec : Nat) (rnd :
     · next v hv =>
       have hb := bernIter_numbers env _ k e hk n (by omega) v hv
       split
-      · right; right; exact ⟨v, hb, Or.inr (Or.inl ⟨rfl, rfl⟩)⟩
-      · next rr => right; right; exact ⟨v, hb, Or.inr (Or.inr ⟨rr, rfl, rfl⟩)⟩
+      · right; right; exact ⟨v, .cachedRaw, hb, rfl⟩
+      · next rr => right; right; exact ⟨v, .cachedPos, hb, rfl⟩
     · split
       · left; simp [bernHuge]
       · exact bernRunLoop_outcome env s e prec n rnd k hk h2 hlo
